@@ -88,6 +88,9 @@ void dss::clear_evaluators()
 
 void dss::move_to_validation()
 {
+  // The examples keep their class / column encoding.
+  validation_.clone_schema(training_);
+
   std::move(training_.begin(), training_.end(),
             std::back_inserter(validation_));
   training_.clear();
